@@ -155,6 +155,13 @@ func (e *Engine) BindContracts() []string {
 				found := false
 				for f := range e.AllFuncs {
 					if o := f.Origin(); o != nil && f != o && o.Pkg != nil && o.Pkg.Pkg.Path() == fc.Pkg && (relName(o) == fc.Key || stripTypeArgs(relName(o)) == fc.Key) {
+						if _, specific := e.Contracts[f]; !specific {
+							e.Contracts[f] = fc
+						}
+						found = true
+					}
+					// a contract for one instantiation only: "(*Node[balance.Value]).GetOrCreate"
+					if o := f.Origin(); o != nil && f != o && o.Pkg != nil && o.Pkg.Pkg.Path() == fc.Pkg && (relName(f) == fc.Key || strings.HasPrefix(relName(f), fc.Key+"[")) {
 						e.Contracts[f] = fc
 						found = true
 					}
